@@ -47,9 +47,12 @@ CHECKS.update({
                 technique="contract-based deductive verification (pyvc, z3; call by contract; induction lemmas) + theorem-derived runtime contracts as bounded stand-in",
                 note=OTHER_NOTE + " Cited lemmas: Eckart-Young, TT-SVD quasi-optimality. Assumed: scipy.linalg.norm >= 0."),
     "C06": dict(cat="other", ref="DESIGN §8 C06",
-                text="QN-valid representation invariant: proved preserved by move_qnidx for all sizes; audited after every step of random operation histories "
+                text="QN-valid representation invariant: proved preserved by move_qnidx for all sizes (pyvc); decided exactly by Engine S, for all tensor values per enumerated "
+                     "shape, for sums / differences / operator images incl. charged operators (sector shift) / adjoints and, in kernel-stub mode, for canonicalise, ensure_*, "
+                     "partial sweeps and lossless compression of states, operators and density operators; audited after every step of random operation histories "
                      "(all live objects), for every sector of every model incl. extreme ones, constructors, DMRG and evolution steps.",
-                technique="contract-based deductive verification (pyvc, z3) of the centre move; representation-invariant runtime contracts over bounded histories",
+                technique="contract-based deductive verification (pyvc, z3) of the centre move; exact symbolic execution (Engine S) of the label bookkeeping of arithmetic and gauge "
+                          "moves; representation-invariant runtime contracts over bounded histories (bounded stand-in)",
                 note=OTHER_NOTE),
     "C01": dict(cat="other", ref="DESIGN §8 C01, S.2",
                 text="Engine S: the real construct_symbolic_mpo (both graph algorithms) is executed with indeterminate coefficients; the symbolic operator multiplied "
@@ -198,7 +201,7 @@ def main():
             {"name": "pyvc", "path": "vk/pyvc", "serves_properties": ["C02", "C03", "C04", "C05", "C06", "C14", "C16", "C17", "C20"], "kind_free_text": "AST -> verification conditions (loop invariants, call by contract) -> z3/cvc5"},
             {"name": "exact-exec", "path": "vk/symx/exactexec.py", "serves_properties": ["C16", "C19"], "kind_free_text": "real source executed on exact rationals / z3 reals"},
             {"name": "effects", "path": "vk/pyvc/effects.py", "serves_properties": ["C13"], "kind_free_text": "alias / effect analysis of the real source against sidecar modifies clauses"},
-            {"name": "symx", "path": "vk/symx", "serves_properties": ["C01", "C02", "C03", "C04", "C07", "C08", "C09", "C10", "C11", "C12", "C15", "C18"], "kind_free_text": "real NumPy-level code executed on exact symbolic polynomial scalars; identities decided by normal form"},
+            {"name": "symx", "path": "vk/symx", "serves_properties": ["C01", "C02", "C03", "C04", "C06", "C07", "C08", "C09", "C10", "C11", "C12", "C15", "C18"], "kind_free_text": "real NumPy-level code executed on exact symbolic polynomial scalars; identities decided by normal form"},
             {"name": "rtc", "path": "vk/rtc", "serves_properties": ["C01", "C02", "C03", "C04", "C05", "C06", "C07", "C08", "C09", "C10", "C11", "C12", "C13", "C14", "C15", "C16", "C17", "C18", "C20"], "kind_free_text": "runtime contracts on the real functions, bounded-exhaustive inputs (bounded stand-in, never counted as proved)"},
         ],
         "checks": checks,
